@@ -47,6 +47,7 @@ def run(ctx):
     version_immutable(ctx, 'C18.D2')
     _hash(ctx, methods)
     _nearest(ctx, m, methods)
+    nearest_pure(ctx, 'C18.D4')
 
 
 def _strip_sets(ctx, methods):
@@ -815,6 +816,164 @@ def _nearest(ctx, m, methods):
                                   'the "remember newer version" branch is guarded by %r' % t, file=F,
                                   line=node.lineno, engine='E6')
     ctx.floor('nearest() return statements', nret, 3)
+
+
+_MUTATORS = ('append', 'extend', 'insert', 'pop', 'popitem', 'remove', 'clear', 'update', 'setdefault', 'add', 'discard',
+             'sort', 'reverse', '__setitem__', '__delitem__')
+
+
+def nearest_pure(ctx, rule):
+    """Version.nearest is a function of its argument: the gates of Grid, both writers and both readers call it for
+    every value, from any thread, for any mix of version spellings.  Decides: nearest() and the functions of
+    version.py it calls (i) store nothing on the class, (ii) keep no module-level container, or -- when a memo is
+    kept -- (iii) the memo is keyed by the version itself (Version is hashable consistently with ==, C18.D3), never
+    by a coarser projection of it such as the numeric groups alone, and (iv) key and value are published by ONE
+    store (a memo kept in two attributes is read half-written by a second thread)."""
+    m = ctx.model
+    try:
+        methods = m.methods(MOD, 'Version', 'flat')
+        mod = m.mod(MOD)
+    except AnalysisError as e:
+        ctx.error(rule, str(e))
+        return
+    fn = methods.get('nearest')
+    if fn is None:
+        ctx.error(rule, 'anchor vanished: Version.nearest')
+        return
+    top_funcs = {st.name: st for st in mod.tree.body if isinstance(st, ast.FunctionDef)}
+    containers = {}
+    for st in mod.tree.body:
+        if isinstance(st, ast.Assign) and len(st.targets) == 1 and isinstance(st.targets[0], ast.Name):
+            v = st.value
+            if isinstance(v, (ast.Dict, ast.List, ast.Set, ast.DictComp, ast.ListComp, ast.SetComp)) or (
+                    isinstance(v, ast.Call) and norm(v.func) in ('dict', 'list', 'set', 'OrderedDict', 'collections.OrderedDict',
+                                                                 'defaultdict', 'collections.defaultdict',
+                                                                 'weakref.WeakValueDictionary', 'WeakValueDictionary')):
+                containers[st.targets[0].id] = st
+    try:
+        cls = m.cls(MOD, 'Version')
+    except AnalysisError as e:
+        ctx.error(rule, str(e))
+        return
+    class_attrs = {}
+    for st in cls.body:
+        if isinstance(st, ast.Assign) and len(st.targets) == 1 and isinstance(st.targets[0], ast.Name):
+            class_attrs[st.targets[0].id] = st
+    # functions reached from nearest()
+    reach = []
+    todo = [fn]
+    while todo:
+        f = todo.pop()
+        if f in reach:
+            continue
+        reach.append(f)
+        recv = f.args.args[0].arg if f.args.args else None
+        for n in walk_no_nested(f):
+            if isinstance(n, ast.Call):
+                if isinstance(n.func, ast.Attribute) and isinstance(n.func.value, ast.Name) and n.func.value.id in (recv, 'Version') \
+                        and n.func.attr in methods and n.func.attr not in ('__init__',):
+                    todo.append(methods[n.func.attr])
+                elif isinstance(n.func, ast.Name) and n.func.id in top_funcs:
+                    todo.append(top_funcs[n.func.id])
+    ctx.count('functions reached from Version.nearest', len(reach))
+    for f in reach:
+        for d in f.decorator_list:
+            if 'cache' in norm(d):
+                ctx.error(rule, '%s is memoised by the decorator `%s`: keying not decided' % (f.name, norm(d)[:60]))
+                return
+    attr_stores = []      # (fn, node, attr)
+    cont_stores = []      # (fn, node, container, key expr or None)
+    globals_written = []
+    for f in reach:
+        recv = f.args.args[0].arg if f.args.args else None
+        is_method = f.name in methods and methods[f.name] is f
+        gl = set()
+        for n in walk_no_nested(f):
+            if isinstance(n, ast.Global):
+                gl |= set(n.names)
+        for n in walk_no_nested(f):
+            targets = []
+            if isinstance(n, ast.Assign):
+                targets = list(n.targets)
+            elif isinstance(n, (ast.AugAssign, ast.AnnAssign)):
+                targets = [n.target]
+            flat = []
+            for t in targets:
+                flat.extend(t.elts if isinstance(t, (ast.Tuple, ast.List)) else [t])
+            for t in flat:
+                if isinstance(t, ast.Attribute) and isinstance(t.value, ast.Name) and (
+                        (is_method and t.value.id == recv and f.name != '__init__') or t.value.id == 'Version'):
+                    attr_stores.append((f, n, t.attr))
+                elif isinstance(t, ast.Subscript):
+                    base = t.value
+                    bname = norm(base)
+                    if isinstance(base, ast.Name) and base.id in containers:
+                        cont_stores.append((f, n, base.id, t.slice))
+                    elif isinstance(base, ast.Attribute) and isinstance(base.value, ast.Name) and base.value.id in (recv, 'Version') \
+                            and base.attr in class_attrs:
+                        cont_stores.append((f, n, bname, t.slice))
+                elif isinstance(t, ast.Name) and t.id in gl:
+                    globals_written.append((f, n, t.id))
+            if isinstance(n, ast.Call) and isinstance(n.func, ast.Attribute) and n.func.attr in _MUTATORS:
+                base = n.func.value
+                if isinstance(base, ast.Name) and base.id in containers:
+                    cont_stores.append((f, n, base.id, n.args[0] if n.args and n.func.attr in ('setdefault', '__setitem__') else None))
+                elif isinstance(base, ast.Attribute) and isinstance(base.value, ast.Name) and base.value.id in (recv, 'Version') \
+                        and base.attr in class_attrs and is_method:
+                    cont_stores.append((f, n, norm(base), n.args[0] if n.args and n.func.attr in ('setdefault', '__setitem__') else None))
+    where = '%s:%d' % (F, fn.lineno)
+    if not attr_stores and not cont_stores and not globals_written:
+        ctx.ob(rule, 'Version.nearest and the %d function(s) it calls store nothing on the class and keep no module-level '
+                     'container: the answer depends on the argument alone' % (len(reach) - 1), True, where)
+        return
+    # (iv) a memo in two places
+    names = sorted({a for _, _, a in attr_stores} | {g for _, _, g in globals_written})
+    if len(names) >= 2:
+        f, n, a = (attr_stores + globals_written)[0]
+        ctx.violation(rule, '%s::Version.%s' % (F, f.name), norm(n),
+                      'thread A dumps a 2.0 grid and is pre-empted in nearest() between storing `%s` and `%s`; thread B calls '
+                      'nearest(3.0) and stores both; A resumes and stores its own result under B\'s key: from then on '
+                      'nearest(3.0) answers 2.0, the 3.0 grid is refused by the writers ("does not support NA") and Remove '
+                      'is spelled the 2.0 way' % (names[0], names[1]),
+                      'nearest() keeps a memo in %d separately stored places (%s): key and value are not published by one '
+                      'store, so concurrent callers can pair one version with another version\'s answer'
+                      % (len(names), ', '.join(names)), file=F, line=n.lineno, engine='E7')
+        return
+    if len(names) == 1:
+        f, n, a = (attr_stores + globals_written)[0]
+        ctx.error(rule, 'nearest() stores `%s` (%s): single-slot memo, keying not decided' % (a, norm(n)[:60]))
+        return
+    # (iii) containers: what is the key?
+    params = [x.arg for x in fn.args.args]
+    ver = params[1] if len(params) > 1 else 'ver'
+    for f, n, cname, key in cont_stores:
+        if key is None:
+            ctx.error(rule, 'nearest() path changes the container %s with `%s`: not decided' % (cname, norm(n)[:60]))
+            continue
+        kt = norm(key)
+        fparams = [x.arg for x in f.args.args]
+        fver = fparams[1] if len(fparams) > 1 and f.name in methods else (fparams[0] if fparams else ver)
+        # resolve one level of single-assignment locals
+        for st in walk_no_nested(f):
+            if isinstance(st, ast.Assign) and len(st.targets) == 1 and isinstance(st.targets[0], ast.Name) and st.targets[0].id == kt \
+                    and st.targets[0].id != fver:
+                kt = norm(st.value)
+        whole = {fver, 'str(%s)' % fver, 'repr(%s)' % fver, '(%s.version_nums, %s.version_extra)' % (fver, fver),
+                 '%s.version_nums + (%s.version_extra,)' % (fver, fver)}
+        if kt in whole:
+            ctx.ob(rule, 'the memo %s is keyed by the version itself (`%s`)' % (cname, kt), True, '%s:%d' % (F, n.lineno))
+        elif 'version_nums' in kt and 'version_extra' not in kt and fver not in [x.id for x in ast.walk(key) if isinstance(x, ast.Name)
+                                                                                  and not isinstance(getattr(x, '_parent', None), ast.Attribute)]:
+            ctx.violation(rule, '%s::Version.%s' % (F, f.name), norm(n),
+                          "nearest('2.0a') (answer 3.0: 2.0a is newer than 2.0) followed by nearest('2.0') answers 3.0 although the "
+                          "official version 2.0 is equal to the argument; in the other order nearest('2.0a') answers 2.0, so "
+                          "Grid(version='2.0') accepts a list after one document with ver:\"2.0a\" was handled, and nearest() is "
+                          "not monotone (2.0a <= 2.0b1 but 3.0 > 2.0 for a memo filled in that order)",
+                          'the memo %s is keyed by `%s`: versions that differ only in their suffix (2.0 / 2.0a / 2.0.0-vendor) '
+                          'share one entry, whichever is asked first decides for the others' % (cname, kt),
+                          file=F, line=n.lineno, engine='E6')
+        else:
+            ctx.error(rule, 'nearest() memo %s keyed by `%s`: not decided' % (cname, kt[:60]))
 
 
 def version_immutable(ctx, rule):
